@@ -1059,6 +1059,10 @@ def runLoop (cx : Ctx) : (fuel : Nat) → Runner
 def topCall (cx : Ctx) (fuel : Nat) (addr : Nat) (value : Word) (input : BA) (gas : Nat) (g : Global) : CallRes :=
   evmCall (runLoop cx fuel) 0 false .call cx.origin cx.origin 0 addr value input gas g
 
+/-- top-level `evm.StaticCall` (what `eth_call`-style read-only entry points use) -/
+def topStaticCall (cx : Ctx) (fuel : Nat) (addr : Nat) (input : BA) (gas : Nat) (g : Global) : CallRes :=
+  evmCall (runLoop cx fuel) 0 false .staticcall cx.origin cx.origin 0 addr 0 input gas g
+
 /-- top-level `evm.Create` -/
 def topCreate (cx : Ctx) (fuel : Nat) (value : Word) (init : BA) (gas : Nat) (g : Global) : CallRes :=
   evmCreate cx (runLoop cx fuel) 0 false cx.origin none value init gas g
